@@ -479,6 +479,15 @@ def mask_inside_trimesh(points: np.ndarray, faces: np.ndarray) -> np.ndarray:
     """
     vertices = faces.reshape((-1, 3))
 
+    # work in units of the mesh size, so that the absolute tolerances of the ray tracing
+    # below do not depend on the length unit of the input
+    origin = np.min(vertices, axis=0)
+    size = np.max(np.max(vertices, axis=0) - origin)
+    if size > 0:
+        points = (points - origin) / size
+        faces = (faces - origin) / size
+        vertices = faces.reshape((-1, 3))
+
     # test-points inside of enclosing box
     mask_inside = mask_inside_enclosing_box(points, vertices)
     pts_in_box = points[mask_inside]
